@@ -271,10 +271,6 @@ class ParamsGenerator:
           tfl_flatbuffer_utils.get_tensor_name(first_tensor)
       ]
       for tensor in tensors[1:]:
-        if tensor is first_tensor:
-          # The same tensor is listed once per op that touches it; consumers
-          # of one tensor may legitimately need different parameters.
-          continue
         tensor_params = self.model_quant_results[
             tfl_flatbuffer_utils.get_tensor_name(tensor)
         ]
@@ -350,8 +346,13 @@ def _compatible_tensor_params(
       and params2.transformations[0] != _QuantTrans.NO_QUANTIZE
   ):
     # NO_QUANTIZE has no parameters. So only if both params aren't NO_QUANTIZE
-    # do we expect the parameters to be the same.
-    if params1.parameters != params2.parameters:
+    # do we expect the parameters to be the same. Two ADD_QUANTIZE consumers
+    # may differ: each gets its own quantize op and the float source tensor
+    # itself is not rewritten.
+    if params1.parameters != params2.parameters and not (
+        params1.transformations[0] == _QuantTrans.ADD_QUANTIZE
+        and params2.transformations[0] == _QuantTrans.ADD_QUANTIZE
+    ):
       return False
   # We only need to check the first transformation because transformations are
   # applied in order, and as long as the one that's immediately after the tensor
